@@ -147,7 +147,9 @@ def monotonic_factorization(arr: ArrayType1D) -> Tuple[int, np.ndarray, pd.Index
     pd_type = pandas_type_from_array(arr)
 
     if pd_type.kind == "M":
-        arr, pd_type = _convert_timestamp_to_tz_unaware(arr)
+        # keep pd_type: for pyarrow / polars input the second return value is the
+        # library's own type object, which has no .kind and cannot label an Index
+        arr, _ = _convert_timestamp_to_tz_unaware(arr)
 
     arr_list = _val_to_numpy(arr, as_list=True)
 
